@@ -13,6 +13,7 @@ import types
 import warnings
 
 from ..core import Violation, HarnessError, stream, sut, exc_name
+from ..core import deep
 
 ID = "C10"
 UNSET = "<unset>"
@@ -78,7 +79,7 @@ class Prop:
         r = stream(seed, "ops")
         ninit = c.randint(1, 3)
         init = [c.choice(["A", "A", "B"]) for _ in range(ninit)]
-        nops = c.choice([5, 10, 16, 24, 40])
+        nops = deep(c, [5, 10, 16, 24, 40], [60, 90])
         ctr = [100]
         ops = []
         for _ in range(nops):
